@@ -98,7 +98,7 @@ def stuff(frame: bytes, extra=None) -> bytes:
     chooses to escape (RFC 1662 allows escaping any octet)."""
     out = bytearray()
     for b in frame:
-        if b in (FLAG, ESC) or (extra and b in extra and (b ^ 0x20) not in (FLAG,)):
+        if b in (FLAG, ESC) or (extra and b in extra and b < 0x20):
             out.append(ESC)
             out.append(b ^ 0x20)
         else:
